@@ -153,6 +153,10 @@ def write_struct(representation_code: RepresentationCode, value: Any) -> bytes:
         # and whichever was encoded first would be written for both; encode zeros directly
         return _write_struct(representation_code, value)
 
+    if representation_code in (RepresentationCode.OBNAME, RepresentationCode.OBJREF):
+        # references are keyed by the referenced item, whose name / origin reference can change; not cached
+        return _write_struct(representation_code, value)
+
     return _write_struct_cached(representation_code, value)
 
 
